@@ -76,6 +76,8 @@ def cases(tier, seed):
                 if pair in ("F0-RB", "RB-RB", "RB-Fm", "RB-ROD@0.5") or tier != "quick":
                     out.append({"joint": jname, "axis": axis, "pair": pair, "r_OJ0": "generic", "A_IJ0": "near2", "seed": seed, "tier": tier})
                     out.append({"joint": jname, "axis": axis, "pair": pair, "r_OJ0": "none", "A_IJ0": "near1_1e-6", "seed": seed, "tier": tier})
+                    # joint point a few 1e-8 beside the reference point of the first partner (close to it, but not in it)
+                    out.append({"joint": jname, "axis": axis, "pair": pair, "r_OJ0": "near_ref1", "A_IJ0": "none", "seed": seed, "tier": tier})
     # simplest first: body pairs before rods, default placement first
     out.sort(key=lambda c: ("ROD" in c["pair"], c.get("r_OJ0", "none") != "none"))
     return out
@@ -121,6 +123,14 @@ def build(case):
         # place the point mass on the rod's cross-section centre (rod reference point at q0)
         el = s2.local_qDOF_P(xi2)
         s1.q0 = np.asarray(s2.r_OP(J.T0, np.asarray(s2.q0, float)[el], xi2), float)
+    if case.get("r_OJ0") == "near_ref1":
+        if k1 in ("RB", "PM"):
+            P1 = np.asarray(s1.r_OP(J.T0, np.asarray(s1.q0, float)), float)
+        elif k1 == "ROD":
+            P1 = np.asarray(s1.r_OP(J.T0, np.asarray(s1.q0, float)[s1.local_qDOF_P(xi1)], xi1), float)
+        else:
+            P1 = np.asarray(s1.r_OP(J.T0), float)
+        r_OJ0 = P1 + np.array([4e-8, -6e-8, 3e-8])
     if case.get("A_IJ0", "none").startswith("near"):
         which, kind, xi = (s1, k1, xi1) if case["A_IJ0"].startswith("near1") else (s2, k2, xi2)
         if kind == "RB":
